@@ -18,7 +18,7 @@ RULE = ("(operator, operand kinds incl. reflected forms and int/bool/LinCombBool
         "operand); distinct by (op, types, values, bitlength).")
 
 NONLINEAR = set(refsem.BINARY + refsem.UNARY + refsem.TERNARY) - {"add", "sub", "neg", "pos"}
-OPS = refsem.BINARY + refsem.UNARY + refsem.TERNARY
+OPS = refsem.BINARY + refsem.UNARY + refsem.TERNARY + ["check_positive_n"]
 
 
 def judge(cfg, name, args):
@@ -125,6 +125,8 @@ def grid_shard(cells, b, p):
             pools = [pools[0], [-lim - 1, -1, 0, 1, lim - 1, lim + 1], [-2, 0, 3, lim]]
         if name == "pow":
             pools[1] = [v for v in pools[1] if v <= lim + 1]
+        for pos, (kind_, lo_, hi_) in ir.OPS[name].params.items():
+            pools[pos] = list(range(-1, b + 3))          # width / count parameters: small non-negative ints (and -1)
         kinds = ["priv" if i % 2 == 0 else "pub" for i in range(len(ts))]
         for vals in itertools.product(*pools):
             args = [(t, k, v) for t, k, v in zip(ts, kinds, vals)]
@@ -195,6 +197,8 @@ def draw_case(draw):
                                st.sampled_from([lim - 1, lim, 127, 128, 253, 254, 255, 256, 257, 300, 1000]))) if t in "I" else draw(st.integers(-1, min(lim + 1, 40)))
         elif name in ("lshift", "rshift") and pos == 1:
             v = draw(st.integers(-2, b + 3))
+        elif pos in ir.OPS[name].params:
+            v = draw(st.integers(-1, b + 3))
         else:
             v = draw(ints)
         if t == "b":
